@@ -67,7 +67,7 @@ reg("C15", "checks/C15_undo.cpp", flavour="asan", extra=["engine/interpose_time.
 reg("C16", "checks/C16_cmp.cpp")
 reg("C17", "checks/C17_meta.cpp", flavour="asan")
 reg("C18", "checks/C18_paths.cpp", flavour="asan")
-reg("C19", "checks/C19_automation.cpp", flavour="asan", shards=1)
+reg("C19", "checks/C19_automation.cpp", flavour="asan", shards=1, deadline=(240, 2400))
 reg("C20", "checks/C20_midimap.cpp", flavour="asan", shards=1)
 
 
